@@ -26,6 +26,13 @@ template <class Aut> static void singleEnc(const ref::TA& A, const dom::TADomain
     { Aut r = a.RemoveUselessStates(); ref::TA R = bddg::modelOf(r, D.sig); if (!ref::equalLang(R, A)) bad("RemoveUselessStates", "language_changed", "result: " + R.str(D.sig.names.data()));
       auto u = ref::useful(R); bool left = false; for (auto q : R.states()) if (!u.count(q)) left = true; for (auto& x : R.rules) if (!ref::usefulRule(x, u)) left = true; if (left) bad("RemoveUselessStates", "useless_state_or_rule_left", "result: " + R.str(D.sig.names.data())); operandSame("RemoveUselessStates"); }
     { Aut cp(a); ref::TA R = bddg::modelOf(cp, D.sig); if (!ref::equalLang(R, A)) bad("copy", "language_changed", "copy: " + R.str(D.sig.names.data())); Aut as; as = a; ref::TA R2 = bddg::modelOf(as, D.sig); if (!ref::equalLang(R2, A)) bad("assign", "language_changed", "copy: " + R2.str(D.sig.names.data())); }
+    // the same automaton on huge state numbers (the loader's counter starts at 2^40): load, dump, both trimmings, copy
+    { AutBase::StateDict sd; AutBase::StateType cnt = (AutBase::StateType)1 << 40; Aut h = bddg::loadD<Aut>(A, D.sig, sd, cnt); c.count("bdd_huge_state_number_loads");
+      { ref::TA R = bddg::modelOf(h, D.sig); if (!ref::equalLang(R, A)) bad("load+dump(huge state numbers)", "language_differs_from_explicit", "dump: " + R.str(D.sig.names.data())); }
+      { Aut r = h.RemoveUnreachableStates(); ref::TA R = bddg::modelOf(r, D.sig); if (!ref::equalLang(R, A)) bad("RemoveUnreachableStates(huge state numbers)", "language_changed", "result: " + R.str(D.sig.names.data())); }
+      { Aut r = h.RemoveUselessStates(); ref::TA R = bddg::modelOf(r, D.sig); if (!ref::equalLang(R, A)) bad("RemoveUselessStates(huge state numbers)", "language_changed", "result: " + R.str(D.sig.names.data())); }
+      { Aut r = Aut::Union(h, a); ref::TA R = bddg::modelOf(r, D.sig); if (!ref::equalLang(R, A)) bad("Union(huge state numbers, small state numbers)", "language_not_the_union", "result: " + R.str(D.sig.names.data())); }
+      { Aut r = Aut::Intersection(h, a); ref::TA R = bddg::modelOf(r, D.sig); if (!ref::equalLang(R, A)) bad("Intersection(huge state numbers, small state numbers)", "language_not_the_intersection", "result: " + R.str(D.sig.names.data())); } }
   } catch (std::exception& e) { bad("single-automaton operations", "exception", e.what()); }
 }
 
